@@ -183,6 +183,18 @@ def c01sys (args res : List String) : Verdict :=
                   if t.startsWith "w=hv," then (t.drop 5).toString.toNat? else none
             if announced.any (fun i => !(seen'.any fun f => f.startsWith s!"{listed i}:x{listed i}:")) then
               some (vProp "T2-have-announced-for-a-piece-without-a-verified-piece-file" s!"sys-ev{min n 9}") else
+            -- ... and the bitfield sent after a handshake marks only such pieces (C01/C11: advertised only when stored)
+            let bitfields : List Bytes := if wrS = "-" then [] else
+              (wrS.splitOn "+").flatMap fun part =>
+                ((part.splitOn "=").drop 1 |> "=".intercalate |>.splitOn "/").filterMap fun t =>
+                  if t.startsWith "w=bf," then
+                    let h := (t.drop 5).toString
+                    parseHex (if h.startsWith "x" then h else "x" ++ h)
+                  else none
+            let bitSet (bs : Bytes) (i : Nat) : Bool := ((bs.getD (i / 8) 0).toNat / (2 ^ (7 - i % 8))) % 2 = 1
+            if bitfields.any (fun bs => (List.range np).any fun i =>
+                bitSet bs i && !(seen'.any fun f => f.startsWith s!"{listed i}:x{listed i}:")) then
+              some (vProp "T2-bitfield-advertises-a-piece-without-a-verified-piece-file" s!"sys-ev{min n 9}") else
             -- every file written is named by its own data hash
             if newFiles.any (fun f => match f.splitOn ":" with | [nm, dh, _] => "x" ++ nm ≠ dh | _ => true) then
               some (vProp "T1-piece-file-written-with-data-that-does-not-hash-to-its-name" "sys") else
